@@ -546,6 +546,17 @@ impl InterfaceInner {
         let src_addr = ipv6_repr.dst_addr;
         let dst_addr = ipv6_repr.src_addr;
 
+        // RFC 4443 §2.4 (e.3): no Destination Unreachable or Time Exceeded message is
+        // originated in response to a packet that was sent to a multicast address.
+        if src_addr.is_multicast()
+            && matches!(
+                icmp_repr,
+                Icmpv6Repr::DstUnreachable { .. } | Icmpv6Repr::TimeExceeded { .. }
+            )
+        {
+            return None;
+        }
+
         let src_addr = if src_addr.x_is_unicast() {
             src_addr
         } else {
